@@ -26,16 +26,31 @@ def turn_seq(sig):
     return out
 
 
-def check_against_definition(fed, def4, oF_model, o3_model=None):
-    """Compare the real detectors (one piece) with D.  Returns (violations, drift)."""
+def _scaled_obs(kind, fed, e):
+    """Run on fed * 2^e (exact in binary floating point) and map the reported values back exactly."""
+    f = 2.0 ** e
+    g, _ = c01._code_obs(kind, [x * f for x in fed], (len(fed),))
+    if 'raised' in g:
+        return g
+    back = lambda v: (lambda y: int(y) if y == int(y) else y)(float(v) / f)
+    cyc = tuple((back(c[0]), back(c[1])) + tuple(c[2:]) for c in g['cyc'])
+    return {**g, 'cyc': cyc, 'rv': tuple(back(v) for v in g['rv'])}
+
+
+def check_against_definition(fed, def4, oF_model, o3_model=None, scale_exp=None):
+    """Compare the real detectors (one piece) with D.  Returns (violations, drift).
+    scale_exp: the same integer signal presented at magnitude 2^scale_exp (real-valued signals of any unit)."""
     viol, drift = [], []
     dcyc = tuple(tuple(c) for c in def4['cyc'])
     drv = tuple(r[0] for r in def4['res'])
     drix = tuple(r[1] for r in def4['res'])
-    case = {'signal': fed}
-    g4, _ = c01._code_obs('4', fed, (len(fed),))
-    g3, _ = c01._code_obs('3', fed, (len(fed),))
-    gF, _ = c01._code_obs('F', fed, (len(fed),))
+    case = {'signal': fed} if scale_exp is None else {'signal': fed, 'times_2_to_the': scale_exp}
+    if scale_exp is None:
+        g4, _ = c01._code_obs('4', fed, (len(fed),))
+        g3, _ = c01._code_obs('3', fed, (len(fed),))
+        gF, _ = c01._code_obs('F', fed, (len(fed),))
+    else:
+        g4, g3, gF = (_scaled_obs(k, fed, scale_exp) for k in '43F')
     for name, g in (('4', g4), ('3', g3), ('F', gF)):
         if 'raised' in g:
             viol.append(('detector %s raised %s' % (name, g['raised']), case, None, g))
@@ -81,6 +96,9 @@ def _replay_blocks(blocks):
         v, d = check_against_definition(fed, st['def4'], st['oF'], st['o3'])
         viol += v
         drift += d
+        if n % 4 == 0:      # same signal at a very small / large magnitude
+            v, d = check_against_definition(fed, st['def4'], st['oF'], None, scale_exp=(-40 if n % 8 == 0 else 30))
+            viol += v
         if len(st['def4']['cyc']) >= 1:
             nontriv.append(fed)
         if len(samples) < 1 and len(st['def4']['cyc']) >= 2:
@@ -122,12 +140,13 @@ def run(chk):
         sig = c01.random_signal(rng, n, rng.choice([2, 3, 4, 7, 30]))
         kind = '34F'[i % 3]
         try:
-            tr, det = c01.record_trace(kind, sig, [n])
+            cuts = [n] if i % 2 == 0 else c01.random_partition(rng, n)     # the definition must also be met by chunked feeds
+            tr, det = c01.record_trace(kind, sig, cuts)
         except Exception as ex:
             chk.violation('detector raised: %r' % ex, {'detector': kind, 'signal': sig}, part='trace')
             continue
         traces.append(tr)
-        meta.append((kind, sig))
+        meta.append((kind, sig, cuts))
     out = tlc.validate_traces(c01.TRACE_TLA, c01.TRACE_CFG, traces, 'c02', nsplit=12)
     chk.cov['states'] += out['states']
     chk.cov['transitions'] += out['generated']
@@ -137,7 +156,7 @@ def run(chk):
     for gi, inv, st in out['inv']:
         chk.machinery.append('invariant %s failed on the model state of an accepted trace' % inv)
     acc = 0
-    for (kind, sig), v in zip(meta, out['verdicts']):
+    for (kind, sig, cuts), v in zip(meta, out['verdicts']):
         chk.evals(1)
         if v is None:
             continue
@@ -148,7 +167,7 @@ def run(chk):
             # rejected by the spec: the logged output is not what Process yields, and the invariant IsDefinition ties
             # Process to the definition on this very signal -> decide on D directly
             chk.violation('recorded one-piece run rejected by the specification (clause %s): detector output differs from the definition' % v[1],
-                          {'detector': kind, 'signal': sig}, None, c01._code_obs(kind, sig, (len(sig),))[0], part='trace')
+                          {'detector': kind, 'signal': sig, 'chunks': cuts}, None, c01._code_obs(kind, sig, cuts)[0], part='trace')
     chk.cov['traces_validated_against_impl'] += acc
     if traces:
         chk.sample({'recorded_trace': {'kind': traces[0]['kind'], 'events': traces[0]['events'][:1]}}, cap=4)
